@@ -7,6 +7,7 @@ miss=0
 for d in seeded/*/; do
   id=$(basename $d)
   [ -f $d/patch.diff ] || continue
+  if grep -q obsolete_after_fix $d/meta.json; then echo "$id skipped (no longer observable after a fix: see meta.json)"; continue; fi
   prop=$(python3 -c "import json;print(json.load(open('$d/meta.json'))['breaks_property'])")
   wt=/dev/shm/seedwt-$id
   rm -rf $wt; git -C /repo worktree add -q --detach $wt HEAD || continue
